@@ -308,6 +308,11 @@ void generate_c08(Rng &r, const GenOpts &g, Plan &p) {
     for (long i = 0; i < nmsg; i++) {
         std::string m = gen_message(r, mo);
         if (r.chance(1, 8)) m = mutate_bytes(r, m, (int) r.range(1, 3));
+        if (r.chance(1, 12)) {
+            // what editors and terminal programs put in front of a line: a UTF-8 byte order mark (whole or partial), NULs, XON/XOFF
+            static const char *junk[] = {"\xEF\xBB\xBF", "\xEF\xBB", "\xEF", "\xFF\xFE", "\x11", "\x13", "\xEF\xBB\xBF\xEF\xBB\xBF"};
+            m = std::string(junk[r.below(sizeof junk / sizeof junk[0])]) + m;
+        }
         if (!mo.string_nl) {
             // with the switch off no quoted string may contain a terminator, mutated or not
             bool q = false;
